@@ -177,6 +177,16 @@ func registerJSONStubs(e *Engine) {
 		st.appendToBufPtr(st.asPtr(args[0]), txt)
 		ret(e.k64(int64(len(txt))))
 	}
+	// strconv.AppendUint(buf, v, 10): same contract, unsigned
+	e.intr["strconv.AppendUint"] = func(st *State, fn *ssa.Function, args []Value, ret func(Value)) {
+		base := st.simp(st.asT(args[2]))
+		if !base.IsConst() || base.K != 10 {
+			st.unsupported("strconv.AppendUint with base != 10")
+		}
+		idx := st.addGhost(ghostTok{kind: "uint", val: st.asT(args[1])})
+		bt := types.NewSlice(types.Typ[types.Uint8])
+		ret(st.doAppend(args[0].(Slice), st.strConst(strconv.Itoa(idx)), bt, types.Typ[types.String]))
+	}
 	e.intr[jp+"f64toa"] = func(st *State, fn *ssa.Function, args []Value, ret func(Value)) {
 		bits := st.asT(args[1])
 		// non-finite doubles: the amd64 encoder writes nothing and reports 0 bytes
@@ -223,9 +233,31 @@ func registerJSONStubs(e *Engine) {
 			ret(Tuple{g.val, c.True})
 			return
 		}
+		if g := st.ghostByText(txt, ""); ok && g != nil && g.kind == "uint" {
+			// an unsigned decimal denotes an int64 only below 2^63
+			ret(Tuple{g.val, c.BNot(c.Slt(g.val, c.Const(0, 64)))})
+			return
+		}
 		// literal text written by the code itself (e.g. a default value)
 		if v, err := strconv.ParseInt(txt, 10, 64); ok && err == nil && v < ghostBase && v > -ghostBase {
 			ret(Tuple{c.Const(uint64(v), 64), c.True})
+			return
+		}
+		ret(Tuple{c.Const(0, 64), c.False})
+	}
+	e.intr[vrtPath+".JNumUint"] = func(st *State, fn *ssa.Function, args []Value, ret func(Value)) {
+		txt, ok := st.concreteBytes(args[0])
+		if g := st.ghostByText(txt, ""); ok && g != nil && g.kind == "uint" {
+			ret(Tuple{g.val, c.True})
+			return
+		}
+		if g := st.ghostByText(txt, ""); ok && g != nil && g.kind == "int" {
+			// a signed decimal denotes an unsigned value only when non-negative
+			ret(Tuple{g.val, c.BNot(c.Slt(g.val, c.Const(0, 64)))})
+			return
+		}
+		if v, err := strconv.ParseUint(txt, 10, 64); ok && err == nil && v < ghostBase {
+			ret(Tuple{c.Const(v, 64), c.True})
 			return
 		}
 		ret(Tuple{c.Const(0, 64), c.False})
